@@ -297,6 +297,45 @@ def build_repo_binary(pkg, name, timeout=1500):
     return (exe if rc == 0 else None), out
 
 
+# (output file under coq/, [(go file under REPO, function, Gallina name)]): cryptobyte.Builder code translated
+# from /repo's current source before the proofs are built
+GENERATED = {
+    "Gen/Builders.v": [("internal/ctlog/ctlog.go", "computeCacheHash", "gen_ctlog_cache_key"),
+                       ("cmd/recompute-cache/recompute-cache.go", "computeCacheHash", "gen_recompute_cache_key"),
+                       ("tile.go", "MerkleTreeLeaf", "gen_merkle_tree_leaf")],
+}
+
+
+def regenerate(res=None, prop=None):
+    """runs /verif/translate on /repo's current source; returns (ok, log). A failure (construct outside
+    the translator's subset, function gone) is a broken tie."""
+    exe = os.path.join(BUILD, "bin", "translate")
+    os.makedirs(os.path.dirname(exe), exist_ok=True)
+    with Lock("go"):
+        rc, out, dt = run(["go", "build", "-o", exe, "."], cwd=os.path.join(VERIF, "translate"), timeout=600)
+    if rc != 0:
+        return False, "translator does not build:\n" + out[-3000:]
+    logs = []
+    with Lock("coq"):
+        for rel, specs in GENERATED.items():
+            target = os.path.join(COQ, rel)
+            tmp = target + ".new"
+            args = [exe, tmp] + ["%s:%s:%s" % (os.path.join(REPO, g), f, n) for (g, f, n) in specs]
+            rc, out, dt = run(args, timeout=120)
+            if rc != 0:
+                if os.path.exists(tmp):
+                    os.remove(tmp)
+                return False, "translation of %s failed:\n%s" % (rel, out[-3000:])
+            new = open(tmp).read()
+            old = open(target).read() if os.path.exists(target) else None
+            if new != old:
+                os.replace(tmp, target)
+                logs.append("regenerated " + rel)
+            else:
+                os.remove(tmp)
+    return True, "\n".join(logs)
+
+
 def repo_rev():
     rc, out, _ = run("git -C %s rev-parse --short HEAD; git -C %s status --porcelain | wc -l" % (REPO, REPO), shell=True)
     return " ".join(out.split())
